@@ -15,7 +15,9 @@ import (
 // whatever follows it). The harness reconstructs each call from what its destination saw: the bytes of every
 // destination write and the bit-buffer carry (hook VerifState: BitLen/Bits) at that moment; block boundaries come
 // from the pending-token count (dynamic compressor) or the block counter (Huffman-only compressor); the data a block
-// stands for comes from the recorded match-finder calls (bytes consumed since the previous block).
+// stands for comes from the recorded match-finder calls (bytes consumed since the previous block). The check is given
+// the last 32 KiB of the data encoded before the block as history (no DEFLATE distance reaches further);
+// `IsBlock.extend_history` proves that the result holds for the whole history.
 
 func init() {
 	corrGens["E"] = genECases
@@ -202,7 +204,7 @@ func genECases(r *Rng, tier string, n int) []corrCase {
 					if final {
 						fin = "1"
 					}
-					line = fmt.Sprintf("E %d %s %s %s %s %s %s", pos, bitString(carryBits, carryLen), hexOrDash(out), bitString(last.bits, last.bitLen), fin, hexOrDash(all[:q]), hexOrDash(all[q:q+xlen]))
+					line = fmt.Sprintf("E %d %s %s %s %s %s %s", pos, bitString(carryBits, carryLen), hexOrDash(out), bitString(last.bits, last.bitLen), fin, hexOrDash(all[max(0, q-32768):q]), hexOrDash(all[q:q+xlen]))
 				}
 				stBlocks++
 				if final {
